@@ -31,7 +31,12 @@ def check_arity(ctx, f: FuncInfo, rule: str) -> None:
         want = m + 1
         st = S.stmt_of(first, parents)
         est: Optional[str] = None
-        for t, pol in S.early_exit_guards(st, f, parents) + S.guards_of(first, parents):
+        def unnot(t, pol):
+            while isinstance(t, ast.UnaryOp) and isinstance(t.op, ast.Not):
+                t, pol = t.operand, not pol
+            return t, pol
+
+        for t, pol in [unnot(t, pol) for t, pol in S.early_exit_guards(st, f, parents) + S.guards_of(first, parents)]:
             for c in ([t] if not (isinstance(t, ast.BoolOp) and isinstance(t.op, ast.Or)) else t.values) if not pol else ([t] if not (isinstance(t, ast.BoolOp) and isinstance(t.op, ast.And)) else t.values):
                 if isinstance(c, ast.Compare) and len(c.ops) == 1 and ast.unparse(c.left) == f"len({owner}.{attr})" and isinstance(c.comparators[0], ast.Constant):
                     k = c.comparators[0].value
